@@ -25,7 +25,7 @@ def pathStr (p : Path) : Str := p.flatMap fun s => '/' :: latin1OfBytes s
 def encPath (p : Path) : String := encStr (pathStr p)
 
 def fsP : P FS := do
-  let es ← listOf (do let p ← str; let c ← str; pure (resolve p, bytesOfLatin1 c))
+  let es ← listOf (do let p ← str; let c ← str; pure (pathResolve p, bytesOfLatin1 c))
   pure ⟨es⟩
 
 def sortStrings (xs : List String) : List String := (xs.toArray.qsort (· < ·)).toList
@@ -45,8 +45,8 @@ def depList : P (List DepInfo) := listOf depInfo
 def depUrls (d : DepInfo) (lp : Option Str) (iv : Bool) : List Str :=
   let base := (sourcePathMap d lp iv).href
   let get (k : Str) (l : List KVs) : List Str := l.filterMap (alookup k)
-  (match asDictSheets base d.stylesheet with | .ok s => get kHref s | .error _ => [])
-    ++ (match asDictScripts base d.script with | .ok s => get kSrc s | .error _ => [])
+  (match asDictSheets base d.stylesheet with | .ok s => get dtKHref s | .error _ => [])
+    ++ (match asDictScripts base d.script with | .ok s => get dtKSrc s | .error _ => [])
 
 /-- what `copy_to` asks the OS to do, as data: whether the target is cleared, and for each item whether it is
     copied as a file (`f`) or as a tree (`d`) (skipped items are not calls), in loop order (sorted when the order comes from a
@@ -61,7 +61,7 @@ def copyPlan (d : DepInfo) (path : Str) (iv : Bool) (fs : FS) : String :=
     | .ok items =>
       if !items.all (fun it => fs.exists it.1) then "err exception"
       else
-        let T := resolve targetDir
+        let T := pathResolve targetDir
         let rows := items.filterMap fun it =>
           if fs.isFile it.1 then some ("f " ++ encPath it.1 ++ " " ++ encPath it.2)
           else if fs.isDir it.1 then some ("d " ++ encPath it.1 ++ " " ++ encPath it.2)
